@@ -199,11 +199,13 @@ impl Recv {
                 "lower than high water mark",
             ));
         }
-        self.credit_consumed_by(final_offset.into(), received, max_data)?;
-
         if matches!(self.state, RecvState::ResetRecvd { .. }) {
+            // A retransmitted RESET_STREAM with the same final size: all of it was accounted for by
+            // the first one (`end` is not advanced by a reset, so it must not be charged again)
             return Ok(false);
         }
+        self.credit_consumed_by(final_offset.into(), received, max_data)?;
+
         self.state = RecvState::ResetRecvd {
             size: final_offset.into(),
             error_code,
